@@ -151,7 +151,8 @@ def install_finalize_log():
             strict = False
         st, empty = df_state(self)
         ev = {"method": method, "nsrc": len(data), "strict": strict, "cols": st, "empty": empty,
-              "view": [[str(k), str(v.unit)] for k, v in data[0].columns.items()] if data else []}
+              "view": [[str(k), str(v.unit)] for k, v in data[0].columns.items()] if data else [],
+              "self_obj": self, "src_objs": [x for x in src if getattr(x, "_table_data", None) is not None]}
         FIN_LOG.append(ev)
         try:
             res = orig(self, other, method, **kw)
